@@ -44,6 +44,12 @@ ASSUMPTIONS = [
     "may not start with the line break",
     "one callable is registered at most once per event name at a time",
     "the order of names inside a SETEVENTS line is not constrained",
+    "the order in which the listeners of one event are called is not constrained ('in arrival order' orders the "
+    "events each listener sees)",
+    "SETEVENTS: every command written must name the listener-name set as it was right after some add/remove begun "
+    "before the command was written (matched in order); a change made on an idle connection must be written at "
+    "once; at the end Tor must have been told the final set - one command per change is NOT demanded (a command "
+    "still waiting in the queue may be brought up to date)",
 ]
 
 NAMES = ["CIRC", "STREAM", "NS", "DESCCHANGED", "HS_DESC", "CONF_CHANGED"]
@@ -176,7 +182,8 @@ class _Run(object):
         # listeners of kind "bound" are registered as *bound methods* (what TorState, onion.py etc. pass): every
         # attribute access yields a new, equal-but-not-identical method object, for add and for remove alike
         self.holders = [_Holder(cb) for cb in self.cbs]
-        self.expected_setevents = []  # list of frozenset of names, one per SETEVENTS that must be issued
+        self.ops = []                 # per add/rm: names with listeners afterwards, commands written before it,
+                                      # whether the connection was idle, whether it wrote its SETEVENTS at once
         self.api_errors = []
 
     # ---- server side
@@ -228,10 +235,9 @@ class _Run(object):
         if j >= len(self.L) or self._is_reg(j):
             return
         name = self.L[j]["name"]
-        first = not self.registered.get(name)
+        before = self._names()
         self.registered.setdefault(name, []).append(j)
-        if first:
-            self.expected_setevents.append(self._names())
+        op = self._op_begin(before)
         self.log.append(("add", j))
         try:
             self.pipe.proto.add_event_listener(name, self._listener(j))
@@ -239,14 +245,16 @@ class _Run(object):
             self.api_errors.append(("add", j, repr(e)))
             if from_cb:
                 raise
+        finally:
+            self._op_end(op)
 
     def rm(self, j, from_cb=False):
         if j >= len(self.L) or not self._is_reg(j):
             return
         name = self.L[j]["name"]
+        before = self._names()
         self.registered[name].remove(j)
-        if not self.registered[name]:
-            self.expected_setevents.append(self._names())
+        op = self._op_begin(before)
         self.log.append(("rm", j))
         try:
             self.pipe.proto.remove_event_listener(name, self._listener(j))
@@ -254,6 +262,23 @@ class _Run(object):
             self.api_errors.append(("rm", j, repr(e)))
             if from_cb:
                 raise
+        finally:
+            self._op_end(op)
+
+    def _op_begin(self, before):
+        ncmd = len(self.pipe.commands)
+        # idle = every command written so far has been answered completely (then txtorcon's queue is empty too);
+        # judged only between deliveries: inside a callback the rest of the chunk has not been processed yet
+        idle = (not self.delivering) and (ncmd - self.n_boot) <= sum(
+            1 for e in self.reply_ends if e <= self.pipe.delivered)
+        op = {"post": self._names(), "changed": before != self._names(), "ncmd_before": ncmd, "idle": idle,
+              "wrote": None}
+        self.ops.append(op)
+        return op
+
+    def _op_end(self, op):
+        new = self.pipe.commands[op["ncmd_before"]:]
+        op["wrote"] = [frozenset(ln.split()[1:]) for ln in new if ln.startswith("SETEVENTS")]
 
     def _listener(self, j):
         if self.L[j].get("kind") == "bound":
@@ -330,7 +355,11 @@ class _Run(object):
         before = self.pipe.delivered
         mark = len(self.log)
         # is a session command in flight (written, reply not complete) at this moment?
-        self.pipe.deliver(n)
+        self.delivering = True
+        try:
+            self.pipe.deliver(n)
+        finally:
+            self.delivering = False
         after = self.pipe.delivered
         done = [i for (end, i) in self.event_spans if before < end <= after]
         self._judge(done, mark, res, before)
@@ -399,10 +428,8 @@ class _Run(object):
                         tag = "event-missed-while-command-in-flight"
                     res.bad(tag, "event %r (form %s) not delivered to listener %d registered for %s "
                             "(got: %r)" % (ev, ev["form"], lid, name, receivers))
-            # order among receivers = registration order
-            order = [x for x in s0 if x in receivers]
-            if [x for x in receivers if x in s0] != order:
-                res.bad("listener-order", "event %r receivers %r, registration order %r" % (ev, receivers, s0))
+            # (the order among the listeners of one event is not constrained by the statement: "in arrival order"
+            # orders the events each listener sees, which the sequential attribution above enforces)
             # payload
             okp = self._payloads(ev)
             for g in got:
@@ -426,6 +453,7 @@ class _Run(object):
             cur += 1
 
     set_changed_during = False
+    delivering = False
 
     def _inflight_kind(self, offset):
         written = len(self.pipe.commands) - self.n_boot
@@ -531,11 +559,33 @@ def drive_events(case):
             res.bad("two-in-flight", "command %d %r written before reply %d complete" % (k, line, k - 1))
             break
 
-    # SETEVENTS lines: one per first-add / last-removal, listing exactly the names with listeners then
-    se = [frozenset(ln.split()[1:]) for ln in pipe.commands[r.n_boot:] if ln.startswith("SETEVENTS")]
-    if se != r.expected_setevents:
-        res.bad("setevents-mismatch", "SETEVENTS written %r expected %r" % (
-            [sorted(x) for x in se], [sorted(x) for x in r.expected_setevents]))
+    # SETEVENTS lines.  "The event subscription command lists exactly the names that currently have listeners":
+    # every SETEVENTS written names the listener-name set as it was right after some add/remove that had begun
+    # before the command was written - matched in order, each add/remove at most once (a command still waiting in
+    # the queue may have been brought up to date, several changes may share one command); a change made while the
+    # connection is idle has no reason to wait and must be written at once; in the end Tor knows the final set.
+    se = [(c, frozenset(ln.split()[1:])) for c, ln in enumerate(pipe.commands) if c >= r.n_boot and
+          ln.startswith("SETEVENTS")]
+    ptr = 0
+    for c, names in se:
+        hi = sum(1 for op in r.ops if op["ncmd_before"] <= c)
+        m = next((k for k in range(ptr, hi) if r.ops[k]["post"] == names), None)
+        if m is None:
+            res.bad("setevents-mismatch", "SETEVENTS %r (command #%d) names no listener-name set that existed after an "
+                    "add/remove made since the previous SETEVENTS; sets after each add/remove: %r, all SETEVENTS: %r" % (
+                        sorted(names), c - r.n_boot, [sorted(op["post"]) for op in r.ops],
+                        [sorted(x) for _c, x in se]))
+            break
+        ptr = m + 1
+    for k, op in enumerate(r.ops):
+        if op["changed"] and op["idle"] and op["wrote"] != [op["post"]]:
+            res.bad("setevents-mismatch", "add/remove #%d changed the names with listeners to %r on an idle connection "
+                    "but wrote %r" % (k, sorted(op["post"]), [sorted(x) for x in (op["wrote"] or [])]))
+            break
+    told = se[-1][1] if se else frozenset()
+    if told != r._names():
+        res.bad("setevents-mismatch", "after everything was answered Tor was last told %r but the names with listeners "
+                "are %r" % (sorted(told), sorted(r._names())))
 
     # differential: the same session without any event or listener
     if res.ok and cmds and case["events"]:
@@ -573,7 +623,8 @@ MANIFEST = {
             "programme (add/remove between chunks and from inside callbacks, raising listeners) and arbitrary "
             "segmentation. Oracle: listener-set model evaluated per event (exactly once to every listener "
             "registered at arrival, nobody else, exact payload, arrival order), the C01 reply model applied "
-            "unchanged plus a differential run without events, and the exact sequence of SETEVENTS name sets.",
+            "unchanged plus a differential run without events, and the SETEVENTS name sets (each one current for some "
+            "add/remove since the previous command, written at once when idle, final set told).",
     "note": "Trusted: reference encoder/model (vlib/wire.py), fake transport; events carry a '#n' token in their "
             "first line so deliveries can be attributed; events appear only between complete replies.",
     "technique": "property-based testing (Hypothesis): model-based listener-set oracle + differential run without events",
